@@ -697,6 +697,9 @@ var solvers = []solverSpec{
 	{"z3-new-ematch", []string{"z3-new", "-smt2", "smt.auto_config=false", "smt.mbqi=false"}},
 	{"z3", []string{"z3", "-smt2"}},
 	{"cvc5", []string{"cvc5", "--lang=smt2", "--dt-nested-rec", "--fp-exp"}},
+	// e-matching is sensitive to term order; differently seeded runs are independent attempts
+	{"z3-new-ematch-s2", []string{"z3-new", "-smt2", "smt.auto_config=false", "smt.mbqi=false", "smt.random_seed=2"}},
+	{"z3-new-ematch-s3", []string{"z3-new", "-smt2", "smt.auto_config=false", "smt.mbqi=false", "smt.random_seed=3"}},
 }
 
 type solveResult struct {
@@ -713,7 +716,7 @@ func runPortfolio(query string, timeout time.Duration, dir string, tag string, w
 }
 
 // the configurations that win most often; used for the first (sliced) attempt
-var fastSolvers = []solverSpec{solvers[0], solvers[1], solvers[3]}
+var fastSolvers = []solverSpec{solvers[0], solvers[1], solvers[3], solvers[4], solvers[5]}
 
 func runPortfolioWith(solvers []solverSpec, query string, timeout time.Duration, dir string, tag string, waitAll bool) solveResult {
 	f := filepath.Join(dir, tag+".smt2")
